@@ -3,22 +3,40 @@ from props import tu, run, NONULL
 SRC = "harness/c14_dynamic_image.cpp"
 NPARTS = 8
 # cases per part: 6 alternatives x 3 (part 0); 6 x 3 + 30 fill (1); 4 forms x 36 pairs (2); 2 x 36 (3, 4, 6, 7);
-# 3 x 25 pairs + 5 (5)
-CASES = [18, 48, 144, 72, 72, 80, 72, 72]
+# 3 x 36 pairs + 6 (5); the same in both tiers (the thorough tier widens the shapes inside each case)
+CASES = [18, 48, 144, 72, 72, 114, 72, 72]
+X = ["-O0"] + NONULL
 
 CFG = dict(
     level="exploration",
-    level_text="(below)",
-    level_note="",
-    technique="",
-    rule="",
+    level_text=("Differential run-time monitor: every query, view transformation and algorithm overload of any_image / any_image_view "
+                "is executed on the variant (over a byte arena the harness owns, with row padding and margins) and on the concrete "
+                "image/view over a byte-identical clone; dimensions, index(), pixel identities (address of every channel of every pixel), "
+                "converted pixel values and whole arenas must agree. All 6 alternatives, all 36 ordered pairs in the variant x variant, "
+                "variant x concrete and concrete x variant forms, every shape of the tier; incompatible pairs must throw std::bad_cast with "
+                "the destination arena unchanged. Deep/shallow copy semantics and recreate are observed on owning any_images. Overloads "
+                "that do not instantiate at all are reported by build probes."),
+    level_note=("trusts the concrete GIL operation as the reference (C02/C04 judge those) and the hand-written compatibility classes; "
+                "only nearest-neighbour resampling; ASan+UBSan at -O0"),
+    technique="differential execution variant vs concrete object on cloned byte arenas; build probes for overloads that fail to instantiate",
+    rule=("one case per (operation, form, alternative or ordered pair of alternatives); inside a case every shape w,h of the tier "
+          "(25 quick / 64 thorough), for sub-images every rectangle, for sub-sampling steps 1..3 x 1..3. evaluations = comparisons "
+          "variant-vs-concrete made; distinct_nontrivial = (operation, form, pair, shape[, rectangle/step]) tuples, distinct by "
+          "construction of the loops; arenas are filled with seeded bytes so that every comparison is over non-trivial content "
+          "(empty shapes 0xh / wx0 are counted: they are the boundary the property quantifies over)."),
     exhaustive={"quick": False, "thorough": False},
-    exhaustive_domain={"quick": "", "thorough": ""},
-    types=[],
-    assumptions=[],
-    tus=[tu("c14_asan%d" % k, SRC, "asan", extra=["-O0"] + NONULL + ["-DC14_PART=%d" % k]) for k in range(NPARTS)]
-        + [tu("c14_probe_equal_planar", SRC, "asan", extra=["-O0"] + NONULL + ["-DC14_PART=5", "-DC14_PROBE_EQUAL_PLANAR"], probe="equal_pixels.planar"),
-           tu("c14_probe_transposed", SRC, "asan", extra=["-O0"] + NONULL + ["-DC14_PART=8"], probe="transposed_view"),
-           tu("c14_probe_nth_channel", SRC, "asan", extra=["-O0"] + NONULL + ["-DC14_PART=9"], probe="nth_channel_view")],
-    runs=[run("c14_asan%d" % k, shards=2, min_cases={"quick": CASES[k], "thorough": CASES[k]}) for k in range(NPARTS)],
+    exhaustive_domain={"quick": "all alternatives and ordered pairs of the type list x shapes {0,1,2,3,5}^2 x all sub-rectangles x steps {1,2,3}^2; pixel contents seeded",
+                       "thorough": "the same over shapes {0,1,2,3,4,5,7,8}^2"},
+    types=["any_image<gray8, gray16, rgb8, rgb8_planar, bgr8, rgba8> and its view_t / const_view_t",
+           "transformed variants: dynamic x/y/xy step view lists, colour-converted view lists (gray8, rgb8, rgba8, gray16 + user converter)"],
+    assumptions=["the concrete call is the oracle (the property's own wording); its correctness is C02/C04's",
+                 "compatibility classes written by hand: {gray8}, {gray16}, {rgb8, rgb8 planar, bgr8}, {rgba8}",
+                 "binary algorithms are given views of equal dimensions (their precondition)",
+                 "equal_pixels / operator== include the planar alternative (F2 fixed in /repo); -DC14_EQ_WITHOUT_PLANAR restores the reduced list",
+                 "nth_channel_view / transposed_view of a variant are complete checks (parts 8, 9) that are only build probes while the overloads do not instantiate"],
+    tus=[tu("c14_asan%d" % k, SRC, "asan", extra=X + ["-DC14_PART=%d" % k]) for k in range(NPARTS)]
+        + [tu("c14_probe_transposed", SRC, "asan", extra=X + ["-DC14_PART=8"], probe="transposed_view"),
+           tu("c14_probe_nth_channel", SRC, "asan", extra=X + ["-DC14_PART=9"], probe="nth_channel_view")],
+    runs=[run("c14_asan%d" % k, shards={"quick": 2, "thorough": 6}, min_cases={"quick": CASES[k], "thorough": CASES[k]}) for k in range(NPARTS)],
+    require_obs=["binary.compatible", "binary.bad_cast", "binary.converted", "equal.compatible", "equal.bad_cast", "fill.compatible", "fill.bad_cast"],
 )
